@@ -9,10 +9,12 @@ import (
 
 	"verifmon/internal/cases"
 	"verifmon/internal/cli"
+	"verifmon/internal/conv"
 	"verifmon/internal/evid"
 	"verifmon/internal/gen"
 	"verifmon/internal/ref"
 	"verifmon/internal/rmon"
+	"verifmon/internal/sysutil"
 )
 
 type dim struct{ d, b int }
@@ -148,6 +150,13 @@ func runC01(o *cli.Opts, run *evid.Run) {
 			}
 			valid := c.Valid && c.Start.Cmp(two32) < 0
 			judge(run, sys, key, "full/"+j.class, valid, insFullAssign(c, insHash(c)), strat, insIndices(c), c.Sig(), c.Describe())
+			// the prover's front door: ProveInsertion first runs ValidateShape on the parameters
+			if valid && sysutil.InsFits(c) {
+				if err := conv.ToRepoIns(sysutil.InsParams(c)).ValidateShape(uint32(dm.d), uint32(dm.b)); err != nil {
+					run.Violate(key+"/validate-shape", fmt.Sprintf("a batch the specification accepts (class %s) is refused by the prover's parameter check before proving: %v", j.class, err), c.Describe())
+				}
+				run.Add("prover_front_door_checks", 1)
+			}
 		})
 	})
 	run.Stage("full")
